@@ -400,6 +400,87 @@ pub proof fn lemma_swap_remove(objs: Seq<Object>, pos: int, o: Object)
     }
 }
 
+// ---- precision: nothing but what is reachable gets marked -----------------------------------------------------
+/// the managed object at index k is reachable from the word src in at most n steps through managed arrays
+pub open spec fn rf(objs: Seq<Object>, src: Object, k: int, n: nat) -> bool
+    decreases n
+{
+    (is_heap(src) && addr(objs[k]) == addr(src)) || (n > 0 && exists|p: int| 0 <= p < objs.len() && rf(objs, src, p, (n - 1) as nat) && #[trigger] edge(objs, p, k))
+}
+pub open spec fn reachable_from(objs: Seq<Object>, src: Object, k: int) -> bool { exists|n: nat| rf(objs, src, k, n) }
+/// x is one of the old managed objects that are reachable from the roots
+pub open spec fn kept_reachable(objs: Seq<Object>, roots: Seq<Seq<Object>>, x: Object) -> bool {
+    exists|k: int| 0 <= k < objs.len() && #[trigger] reachable(objs, roots, k) && objs[k] == x
+}
+/// what is reachable from an element of the managed array o is reachable from o
+pub proof fn lemma_rf_prepend(objs: Seq<Object>, o: Object, idx: int, c: int, k: int, n: nat)
+    requires 0 <= idx < objs.len(), 0 <= k < objs.len(), objs[idx] == o, is_heap(o), spec_tag(o) == Type::Array, 0 <= c < elems(o).len(), rf(objs, elems(o)[c], k, n)
+    ensures rf(objs, o, k, n + 1)
+    decreases n
+{
+    let v = elems(o)[c];
+    if is_heap(v) && addr(objs[k]) == addr(v) {
+        assert(rf(objs, o, idx, n));
+        assert(edge(objs, idx, k));
+    } else {
+        let p = choose|p: int| 0 <= p < objs.len() && rf(objs, v, p, (n - 1) as nat) && #[trigger] edge(objs, p, k);
+        lemma_rf_prepend(objs, o, idx, c, p, (n - 1) as nat);
+        assert(rf(objs, o, p, n) && edge(objs, p, k));
+    }
+}
+/// what is reachable from a root word is reachable from the roots
+pub proof fn lemma_rf_root(objs: Seq<Object>, roots: Seq<Seq<Object>>, i: int, j: int, k: int, n: nat)
+    requires 0 <= i < roots.len(), 0 <= j < roots[i].len(), 0 <= k < objs.len(), rf(objs, roots[i][j], k, n)
+    ensures reach(objs, roots, k, n)
+    decreases n
+{
+    let r = roots[i][j];
+    if is_heap(r) && addr(objs[k]) == addr(r) {
+        assert(is_heap(roots[i][j]) && addr(roots[i][j]) == addr(objs[k]));
+        assert(is_root(objs, roots, k));
+    } else {
+        let p = choose|p: int| 0 <= p < objs.len() && rf(objs, r, p, (n - 1) as nat) && #[trigger] edge(objs, p, k);
+        lemma_rf_root(objs, roots, i, j, p, (n - 1) as nat);
+        assert(reach(objs, roots, p, (n - 1) as nat) && edge(objs, p, k));
+    }
+}
+/// one recursive call of mark on the element c of o keeps "everything newly marked is reachable from o"
+pub proof fn lemma_mark_precise_step(objs: Seq<Object>, o: Object, idx: int, c: int, m1: Seq<bool>, mb: Seq<bool>, m2: Seq<bool>)
+    requires
+        0 <= idx < objs.len(), objs[idx] == o, is_heap(o), spec_tag(o) == Type::Array, 0 <= c < elems(o).len(),
+        m1.len() == objs.len(), mb.len() == objs.len(), m2.len() == objs.len(),
+        forall|k: int| 0 <= k < objs.len() && #[trigger] mb[k] && !m1[k] ==> reachable_from(objs, o, k),
+        forall|k: int| 0 <= k < objs.len() && #[trigger] m2[k] && !mb[k] ==> reachable_from(objs, elems(o)[c], k),
+    ensures
+        forall|k: int| 0 <= k < objs.len() && #[trigger] m2[k] && !m1[k] ==> reachable_from(objs, o, k),
+{
+    assert forall|k: int| 0 <= k < objs.len() && #[trigger] m2[k] && !m1[k] implies reachable_from(objs, o, k) by {
+        if !mb[k] {
+            let n = choose|n: nat| rf(objs, elems(o)[c], k, n);
+            lemma_rf_prepend(objs, o, idx, c, k, n);
+            assert(rf(objs, o, k, n + 1));
+        }
+    }
+}
+/// one call of mark on the root word roots[kr][ko] keeps "everything marked is reachable from the roots"
+pub proof fn lemma_marks_precise(objs: Seq<Object>, roots: &[&[Object]], mb: Seq<bool>, m2: Seq<bool>, kr: int, ko: int)
+    requires
+        mb.len() == objs.len(), m2.len() == objs.len(), 0 <= kr < roots@.len(), 0 <= ko < roots@[kr]@.len(),
+        forall|k: int| 0 <= k < objs.len() && #[trigger] mb[k] ==> reachable(objs, roots_view(roots), k),
+        forall|k: int| 0 <= k < objs.len() && #[trigger] m2[k] && !mb[k] ==> reachable_from(objs, roots@[kr]@[ko], k),
+    ensures
+        forall|k: int| 0 <= k < objs.len() && #[trigger] m2[k] ==> reachable(objs, roots_view(roots), k),
+{
+    let rv = roots_view(roots);
+    assert(rv[kr] == roots@[kr]@);
+    assert forall|k: int| 0 <= k < objs.len() && #[trigger] m2[k] implies reachable(objs, rv, k) by {
+        if !mb[k] {
+            let n = choose|n: nat| rf(objs, roots@[kr]@[ko], k, n);
+            lemma_rf_root(objs, rv, kr, ko, k, n);
+        }
+    }
+}
+
 // ---- run: the mark phase over all roots, then the sweep -------------------------------------------------------
 pub proof fn lemma_marks_step(objs: Seq<Object>, roots: Seq<&[Object]>, mb: Seq<bool>, m2: Seq<bool>, kr: int, ko: int)
     requires
@@ -452,7 +533,9 @@ pub proof fn lemma_run_post(objs: Seq<Object>, roots: &[&[Object]], m: Seq<bool>
         mark_complete(objs, roots_view(roots), m),
         forall|k: int| 0 <= k < objs.len() && m[k] ==> fin.contains(#[trigger] objs[k]),
         forall|j: int| 0 <= j < fin.len() ==> kept_marked(objs, m, #[trigger] fin[j]),
+        forall|k: int| 0 <= k < objs.len() && #[trigger] m[k] ==> reachable(objs, roots_view(roots), k),
     ensures
+        forall|j: int| 0 <= j < fin.len() ==> kept_reachable(objs, roots_view(roots), #[trigger] fin[j]),
         forall|k: int| 0 <= k < objs.len() && reachable(objs, roots_view(roots), k) ==> fin.contains(#[trigger] objs[k]),
         forall|j: int| 0 <= j < fin.len() ==> objs.contains(#[trigger] fin[j]),
 {
@@ -460,6 +543,10 @@ pub proof fn lemma_run_post(objs: Seq<Object>, roots: &[&[Object]], m: Seq<bool>
     assert forall|k: int| 0 <= k < objs.len() && reachable(objs, rv, k) implies fin.contains(#[trigger] objs[k]) by {
         let n = choose|n: nat| reach(objs, rv, k, n);
         lemma_reachable_is_marked(objs, rv, m, k, n);
+    }
+    assert forall|j: int| 0 <= j < fin.len() implies kept_reachable(objs, rv, #[trigger] fin[j]) by {
+        let k = choose|k: int| 0 <= k < objs.len() && #[trigger] m[k] && objs[k] == fin[j];
+        assert(reachable(objs, rv, k) && objs[k] == fin[j]);
     }
     assert forall|j: int| 0 <= j < fin.len() implies objs.contains(#[trigger] fin[j]) by {
         let k = choose|k: int| 0 <= k < objs.len() && #[trigger] m[k] && objs[k] == fin[j];
@@ -505,12 +592,14 @@ impl GC {
             covered(final(self).objects@, final(self).mark_bitmap@, *o),
             forall|k: int| 0 <= k < final(self).objects@.len() && #[trigger] final(self).mark_bitmap@[k] && !old(self).mark_bitmap@[k] ==> closed(final(self).objects@, final(self).mark_bitmap@, k),
             count_false(final(self).mark_bitmap@) <= count_false(old(self).mark_bitmap@),
+            // precision: whatever becomes marked is reachable from o
+            forall|k: int| 0 <= k < final(self).objects@.len() && #[trigger] final(self).mark_bitmap@[k] && !old(self).mark_bitmap@[k] ==> reachable_from(final(self).objects@, *o, k),
         decreases count_false(old(self).mark_bitmap@),
     {
-//@GHOST after="self.mark_bitmap.set(index, true);" proof { axiom_one_word_per_address(self.objects@[index as int], *o); lemma_count_update(old(self).mark_bitmap@, index as int); assert(grows(old(self).mark_bitmap@, self.mark_bitmap@)); assert(covered(self.objects@, self.mark_bitmap@, *o)); }
+//@GHOST after="self.mark_bitmap.set(index, true);" proof { axiom_one_word_per_address(self.objects@[index as int], *o); lemma_count_update(old(self).mark_bitmap@, index as int); assert(grows(old(self).mark_bitmap@, self.mark_bitmap@)); assert(covered(self.objects@, self.mark_bitmap@, *o)); assert(rf(self.objects@, *o, index as int, 0)); assert(reachable_from(self.objects@, *o, index as int)); }
 //@GHOST before="self.mark(v);" let ghost mb = self.mark_bitmap@;
-//@GHOST after="self.mark(v);" proof { lemma_count_grows(mb, self.mark_bitmap@); lemma_covered_mono(self.objects@, mb, self.mark_bitmap@, *o); assert(grows(old(self).mark_bitmap@, self.mark_bitmap@)); assert forall|c: int| 0 <= c < __k_v implies covered(self.objects@, self.mark_bitmap@, #[trigger] __v_v@[c]) by { lemma_covered_mono(self.objects@, mb, self.mark_bitmap@, __v_v@[c]); } assert forall|k: int| 0 <= k < self.objects@.len() && #[trigger] self.mark_bitmap@[k] && !old(self).mark_bitmap@.update(index as int, true)[k] implies closed(self.objects@, self.mark_bitmap@, k) by { if mb[k] { lemma_closed_mono(self.objects@, mb, self.mark_bitmap@, k); } } }
-//@LOOP 1 invariant self.objects@ == old(self).objects@, gc_wf(*self), self.mark_bitmap@.len() == self.objects@.len(), index < self.objects@.len(), self.objects@[index as int] == *o, is_heap(*o), spec_tag(*o) == Type::Array, __v_v@ == elems(*o), old(self).mark_bitmap@.len() == self.objects@.len(), !old(self).mark_bitmap@[index as int], grows(old(self).mark_bitmap@.update(index as int, true), self.mark_bitmap@), grows(old(self).mark_bitmap@, self.mark_bitmap@), covered(self.objects@, self.mark_bitmap@, *o), forall|c: int| 0 <= c < __k_v ==> covered(self.objects@, self.mark_bitmap@, #[trigger] __v_v@[c]), forall|k: int| 0 <= k < self.objects@.len() && #[trigger] self.mark_bitmap@[k] && !old(self).mark_bitmap@.update(index as int, true)[k] ==> closed(self.objects@, self.mark_bitmap@, k), count_false(self.mark_bitmap@) < count_false(old(self).mark_bitmap@)
+//@GHOST after="self.mark(v);" proof { lemma_mark_precise_step(self.objects@, *o, index as int, __k_v as int, old(self).mark_bitmap@.update(index as int, true), mb, self.mark_bitmap@); lemma_count_grows(mb, self.mark_bitmap@); lemma_covered_mono(self.objects@, mb, self.mark_bitmap@, *o); assert(grows(old(self).mark_bitmap@, self.mark_bitmap@)); assert forall|c: int| 0 <= c < __k_v implies covered(self.objects@, self.mark_bitmap@, #[trigger] __v_v@[c]) by { lemma_covered_mono(self.objects@, mb, self.mark_bitmap@, __v_v@[c]); } assert forall|k: int| 0 <= k < self.objects@.len() && #[trigger] self.mark_bitmap@[k] && !old(self).mark_bitmap@.update(index as int, true)[k] implies closed(self.objects@, self.mark_bitmap@, k) by { if mb[k] { lemma_closed_mono(self.objects@, mb, self.mark_bitmap@, k); } } }
+//@LOOP 1 invariant self.objects@ == old(self).objects@, gc_wf(*self), self.mark_bitmap@.len() == self.objects@.len(), index < self.objects@.len(), self.objects@[index as int] == *o, is_heap(*o), spec_tag(*o) == Type::Array, __v_v@ == elems(*o), old(self).mark_bitmap@.len() == self.objects@.len(), !old(self).mark_bitmap@[index as int], grows(old(self).mark_bitmap@.update(index as int, true), self.mark_bitmap@), grows(old(self).mark_bitmap@, self.mark_bitmap@), covered(self.objects@, self.mark_bitmap@, *o), forall|c: int| 0 <= c < __k_v ==> covered(self.objects@, self.mark_bitmap@, #[trigger] __v_v@[c]), forall|k: int| 0 <= k < self.objects@.len() && #[trigger] self.mark_bitmap@[k] && !old(self).mark_bitmap@.update(index as int, true)[k] ==> closed(self.objects@, self.mark_bitmap@, k), count_false(self.mark_bitmap@) < count_false(old(self).mark_bitmap@), reachable_from(self.objects@, *o, index as int), forall|k: int| 0 <= k < self.objects@.len() && #[trigger] self.mark_bitmap@[k] && !old(self).mark_bitmap@.update(index as int, true)[k] ==> reachable_from(self.objects@, *o, k)
 //@BODY file=gc.rs fn=mark impl=GC sig="fn mark(&mut self, o: &Object)" rules="R4;R8w[self.objects.iter().position(|a| std::ptr::eq(a.as_ptr(), o.as_ptr()))=>position_by_ptr(&self.objects, o)];R8o[self.mark_bitmap[index]=>self.mark_bitmap.get_bit(index)];R13r[v in { o.as_vec_unchecked() }]"
     }
     /// O03.reset  reset_marks: one unset bit per managed object
@@ -566,11 +655,13 @@ impl GC {
             gc_wf(*final(self)),
             forall|k: int| 0 <= k < old(self).objects@.len() && reachable(old(self).objects@, roots_view(roots), k) ==> final(self).objects@.contains(#[trigger] old(self).objects@[k]),
             forall|j: int| 0 <= j < final(self).objects@.len() ==> old(self).objects@.contains(#[trigger] final(self).objects@[j]),
+            // precision (the collector's half of C04): what is still managed after a collection is reachable
+            forall|j: int| 0 <= j < final(self).objects@.len() ==> kept_reachable(old(self).objects@, roots_view(roots), #[trigger] final(self).objects@[j]),
     {
-//@LOOP 1 invariant self.objects@ == old(self).objects@, gc_wf(*self), self.mark_bitmap@.len() == self.objects@.len(), __v_root@ == roots@, forall|k: int| 0 <= k < self.objects@.len() && #[trigger] self.mark_bitmap@[k] ==> closed(self.objects@, self.mark_bitmap@, k), forall|i: int, j: int| 0 <= i < __k_root && 0 <= j < roots@[i]@.len() ==> covered(self.objects@, self.mark_bitmap@, #[trigger] roots@[i]@[j])
-//@LOOP 2 invariant self.objects@ == old(self).objects@, gc_wf(*self), self.mark_bitmap@.len() == self.objects@.len(), __v_root@ == roots@, __k_root < roots@.len(), __v_obj@ == roots@[__k_root as int]@, forall|k: int| 0 <= k < self.objects@.len() && #[trigger] self.mark_bitmap@[k] ==> closed(self.objects@, self.mark_bitmap@, k), forall|i: int, j: int| 0 <= i < __k_root && 0 <= j < roots@[i]@.len() ==> covered(self.objects@, self.mark_bitmap@, #[trigger] roots@[i]@[j]), forall|j: int| 0 <= j < __k_obj ==> covered(self.objects@, self.mark_bitmap@, #[trigger] __v_obj@[j])
+//@LOOP 1 invariant self.objects@ == old(self).objects@, gc_wf(*self), self.mark_bitmap@.len() == self.objects@.len(), __v_root@ == roots@, forall|k: int| 0 <= k < self.objects@.len() && #[trigger] self.mark_bitmap@[k] ==> closed(self.objects@, self.mark_bitmap@, k), forall|i: int, j: int| 0 <= i < __k_root && 0 <= j < roots@[i]@.len() ==> covered(self.objects@, self.mark_bitmap@, #[trigger] roots@[i]@[j]), forall|k: int| 0 <= k < self.objects@.len() && #[trigger] self.mark_bitmap@[k] ==> reachable(self.objects@, roots_view(roots), k)
+//@LOOP 2 invariant self.objects@ == old(self).objects@, gc_wf(*self), self.mark_bitmap@.len() == self.objects@.len(), __v_root@ == roots@, __k_root < roots@.len(), __v_obj@ == roots@[__k_root as int]@, forall|k: int| 0 <= k < self.objects@.len() && #[trigger] self.mark_bitmap@[k] ==> closed(self.objects@, self.mark_bitmap@, k), forall|i: int, j: int| 0 <= i < __k_root && 0 <= j < roots@[i]@.len() ==> covered(self.objects@, self.mark_bitmap@, #[trigger] roots@[i]@[j]), forall|j: int| 0 <= j < __k_obj ==> covered(self.objects@, self.mark_bitmap@, #[trigger] __v_obj@[j]), forall|k: int| 0 <= k < self.objects@.len() && #[trigger] self.mark_bitmap@[k] ==> reachable(self.objects@, roots_view(roots), k)
 //@GHOST before="self.mark(obj);" let ghost mb = self.mark_bitmap@;
-//@GHOST after="self.mark(obj);" proof { lemma_marks_step(self.objects@, roots@, mb, self.mark_bitmap@, __k_root as int, __k_obj as int); }
+//@GHOST after="self.mark(obj);" proof { lemma_marks_step(self.objects@, roots@, mb, self.mark_bitmap@, __k_root as int, __k_obj as int); lemma_marks_precise(self.objects@, roots, mb, self.mark_bitmap@, __k_root as int, __k_obj as int); }
 //@GHOST before="self.sweep();" let ghost m = self.mark_bitmap@; proof { lemma_unmarked_unreachable(self.objects@, roots, m); }
 //@GHOST after="self.sweep();" proof { lemma_run_post(old(self).objects@, roots, m, self.objects@); }
 //@BODY file=gc.rs fn=run impl=GC sig="pub fn run(&mut self, roots: &[&[Object]])" rules="R4;R13r[root in roots.iter()];R13r[obj in root.iter()]"
